@@ -15,37 +15,49 @@ open Unifex.Generated.FindIfChunks Unifex.Proto.FindIf Unifex.Proto
 theorem num_chunks_nf (d : Nat) : num_chunks (d : Int) = if (d : Int) / 32 > 4 then 32 else (d : Int) / 4 + 1 := by
   have h0 : (0 : Int) ≤ d := Int.natCast_nonneg d
   simp (disch := omega) only [num_chunks, max_num_chunks, min_chunk_size, Int.tdiv_eq_ediv_of_nonneg]
-  split <;> omega
+  (repeat' split) <;> omega
 
 theorem num_chunks_pos (d : Nat) : 1 ≤ num_chunks (d : Int) := by
   rw [num_chunks_nf]; split <;> omega
 
-theorem chunk_size_nf (d : Nat) : chunk_size (d : Int) = ((d : Int) + num_chunks d) / num_chunks d := by
-  have := num_chunks_pos d
+theorem add_self_ediv (a n : Int) (hn : 1 ≤ n) : (a + n) / n = a / n + 1 := by
+  have := Int.add_mul_ediv_right a 1 (c := n) (by omega)
+  rw [Int.one_mul] at this
+  exact this
+
+theorem chunk_size_nf (d : Nat) : chunk_size (d : Int) = (d : Int) / num_chunks d + 1 := by
+  have hn := num_chunks_pos d
   have h0 : (0 : Int) ≤ d := Int.natCast_nonneg d
-  simp (disch := omega) only [chunk_size, Int.tdiv_eq_ediv_of_nonneg]
+  have key := add_self_ediv (d : Int) (num_chunks d) hn
+  have key' : (num_chunks (d : Int) + (d : Int)) / num_chunks d = (d : Int) / num_chunks d + 1 := by
+    rw [Int.add_comm]; exact key
+  simp (disch := omega) only [chunk_size, Int.tdiv_eq_ediv_of_nonneg] <;>
+    first | rfl | exact key | exact key' | omega
 
 theorem chunk_begin_nf (d : Nat) (i : Int) : chunk_begin_it (d : Int) i = chunk_size d * i := by
-  simp [chunk_begin_it]
+  simp only [chunk_begin_it, Int.zero_add] <;>
+    first | rfl | exact Int.mul_comm _ _ | omega
 
 theorem chunk_end_nf (d : Nat) (i : Int) : chunk_end_it (d : Int) i =
     if i < num_chunks d - 1 then chunk_size d * i + chunk_size d else d := by
-  simp [chunk_end_it, chunk_begin_nf]
+  simp only [chunk_end_it, chunk_begin_nf] <;> (repeat' split) <;> omega
 
 /-- case A: 32 chunks of size d/32+1 -/
 theorem nf_big (d : Nat) (h : 160 ≤ d) : num_chunks (d : Int) = 32 ∧ chunk_size (d : Int) = (d : Int) / 32 + 1 := by
   have hn : num_chunks (d : Int) = 32 := by rw [num_chunks_nf]; split <;> omega
   refine ⟨hn, ?_⟩
-  rw [chunk_size_nf, hn]; omega
+  rw [chunk_size_nf, hn]
 
 /-- case B: d/4+1 chunks, chunk size between 1 and 4 -/
 theorem nf_small (d : Nat) (h : d < 160) : num_chunks (d : Int) = (d : Int) / 4 + 1 ∧ 1 ≤ chunk_size (d : Int) ∧ chunk_size (d : Int) ≤ 4 := by
   have hn : num_chunks (d : Int) = (d : Int) / 4 + 1 := by rw [num_chunks_nf]; split <;> omega
+  have h0 : (0 : Int) ≤ d := Int.natCast_nonneg d
   refine ⟨hn, ?_, ?_⟩
   · rw [chunk_size_nf, hn]
-    apply Int.le_ediv_of_mul_le <;> omega
+    have : 0 ≤ (d : Int) / ((d : Int) / 4 + 1) := Int.ediv_nonneg h0 (by omega)
+    omega
   · rw [chunk_size_nf, hn]
-    have : ((d : Int) + ((d : Int) / 4 + 1)) / ((d : Int) / 4 + 1) < 5 := by
+    have : (d : Int) / ((d : Int) / 4 + 1) < 4 := by
       apply Int.ediv_lt_of_lt_mul <;> omega
     omega
 
